@@ -102,6 +102,7 @@ struct Box {
         return t->GetDspMemory();
     }
     u8* raw_mem = nullptr;
+    bool polling_host = false; // a host that never installs receive / semaphore handlers and only polls
     // program / data word helpers working on the raw array (independent of MemoryInterface)
     void poke_prog(u32 addr, u16 v) {
         mem()[addr * 2] = (u8)v;
